@@ -677,6 +677,17 @@ mpeg2_ts_pkt_is_valid(const mpeg2_ts_hdr_t *ts_hdr, const size_t mpeg2_ts_pkt_si
 
 	/* PSI: Program specific information processing. */
 	switch (pid) {
+	case MPEG2_TS_PID_PAT:
+	case MPEG2_TS_PID_CAT:
+	case MPEG2_TS_PID_TSDT:
+	case MPEG2_TS_PID_SDT:
+	case MPEG2_TS_PID_EIT:
+		if (sizeof(mpeg2_psi_tbl_hdr_t) > (mpeg2_ts_pkt_size -
+		    (size_t)(buf_pos - ((const uint8_t*)ts_hdr))))
+			return (0); /* No space for PSI table header. */
+		break;
+	}
+	switch (pid) {
 	case MPEG2_TS_PID_PAT: /* Program Association Table. */
 		if (0 == MPEG2_PSI_IS_PAT_HDR(((const mpeg2_psi_tbl_hdr_t*)buf_pos)))
 			return (0);
@@ -726,7 +737,7 @@ mpeg2_ts_pkt_size_detect(const uint8_t *buf, const size_t buf_size,
 		ptm = mem_chr_ptr(ptm, buf, buf_size, MPEG2_TS_SB);
 		if (NULL == ptm)
 			break;
-		if ((ptm + MPEG2_TS_PKT_SIZE_MAX) > buf_end ||
+		if (MPEG2_TS_PKT_SIZE_MAX > (size_t)(buf_end - ptm) ||
 		    0 == mpeg2_ts_pkt_is_valid((const mpeg2_ts_hdr_t*)ptm, MPEG2_TS_PKT_SIZE_MAX)) {
 			ptm ++;
 			continue;
